@@ -358,6 +358,22 @@ func C20(c *core.Ctx) {
 		}
 		jobs[i] = pfJob{J: j, F: f, Universe: uni, Rules: rules}
 	}
+	// directed: a large liability repaid in two instalments on one day (amounts with one decimal around 3 * 10^7: the
+	// float sum of start value and inflows is not exactly zero), then a deposit - only external flows, 0% on every day
+	for _, mag := range []int{300000003, 30000003, 3000003} {
+		j := &kj.Journal{QS: 10}
+		for _, a := range []string{"Assets:Bank", "Liabilities:Loan", "Equity:Equity", "Income:Salary"} {
+			j.Dirs = append(j.Dirs, kj.Dir{K: "open", Z: 18261, A: a})
+		}
+		third := (mag - 3) / 3
+		j.Dirs = append(j.Dirs,
+			kj.Dir{K: "trx", Z: 18262, Desc: "borrow and spend", Bk: []kj.Booking{{Cr: "Liabilities:Loan", Dr: "Equity:Equity", C: "JPY", Q: mag}}},
+			kj.Dir{K: "trx", Z: 18266, Desc: "repay 1", Bk: []kj.Booking{{Cr: "Income:Salary", Dr: "Liabilities:Loan", C: "JPY", Q: third + 1}}},
+			kj.Dir{K: "trx", Z: 18266, Desc: "repay 2", Bk: []kj.Booking{{Cr: "Income:Salary", Dr: "Liabilities:Loan", C: "JPY", Q: mag - third - 1}}},
+			kj.Dir{K: "trx", Z: 18268, Desc: "deposit", Bk: []kj.Booking{{Cr: "Income:Salary", Dr: "Assets:Bank", C: "JPY", Q: 1000}}})
+		jobs = append(jobs, pfJob{J: j, F: &kj.Flags{From: 18262, To: 18268, Iv: "daily", V: "JPY"}, Universe: map[string][]string{"JPY": {"Cash"}}})
+	}
+	n = len(jobs)
 	cases := make([]map[string]any, n)
 	core.Parallel(n, func(i int) { cases[i] = observePortfolio(bin, root, i+1, jobs[i]) })
 	c.Add("evaluations", n)
